@@ -20,7 +20,9 @@ BASE_CFLAGS = ["-std=c99", "-D_GNU_SOURCE", "-fPIC", "-D" + GUARD,
 VARIANTS = {
     "plain": ["-O1", "-g"],
     "asan": ["-O1", "-g", "-fsanitize=address,undefined", "-fno-sanitize-recover=all",
-             "-fno-omit-frame-pointer"],
+             # qsort(NULL, 0, ..) / memmove(NULL, NULL, 0) on an empty container touch no memory:
+             # the nonnull-attribute sub-check of UBSan is not part of any property
+             "-fno-sanitize=nonnull-attribute", "-fno-omit-frame-pointer"],
     "tsan": ["-O1", "-g", "-fsanitize=thread"],
 }
 
@@ -77,7 +79,7 @@ def _gen_config(incdir):
 def build_lib(variant="plain"):
     """Compile libscientific from /repo's working tree. Returns dict(dir, lib, inc)."""
     os.makedirs(CACHE, exist_ok=True)
-    key = src_hash()[:16] + "-" + variant
+    key = hashlib.sha256((src_hash() + " ".join(BASE_CFLAGS + VARIANTS[variant])).encode()).hexdigest()[:16] + "-" + variant
     d = os.path.join(CACHE, "lib-" + key)
     lib = os.path.join(d, "libsci.a")
     inc = os.path.join(d, "inc")
